@@ -1,8 +1,13 @@
-(* Property C18: function-points preparation.  PARTIAL: the amplitude bookkeeping of the S matrix is a theorem (every
-   stored point receives modulus 1/sqrt(m) whatever the order); the circuit structure is tied by gate-list correspondence
-   (FnPointsModel.fn_gates) for every dictionary; the full-state claim is evaluated. *)
-From Coq Require Import Reals Lra.
-From QV Require Import FnPointsModel.
+(* Property C18: function-points preparation.  C18_fn_state is the full statement on the gate list of the model
+   (FnPointsModel.fn_gates, tied to FnPointsInitialize by gate-list correspondence for every dictionary): for every n >= 2,
+   every non-empty list of pairwise distinct n-bit inputs in any order, every output assignment and every N', the circuit
+   run from |0..0> has amplitude -(1/sqrt m) (cos + i sin)(2 pi s / N') on the basis state whose x register holds the input
+   and whose work qubits (g, c0, c1) are 0, and amplitude 0 on every other basis state.  C18_target_bits says which basis
+   state that is.  C18_theta / C18_split are the amplitude bookkeeping of the S matrix used by the proof. *)
+From Coq Require Import Reals Lra List ZArith.
+From Coquelicot Require Import Complex.
+From QV Require Import Sem TopDownWalk FnPointsModel FnSem FnBits FnLoop.
+Import ListNotations.
 Open Scope R_scope.
 
 Theorem C18_theta : forall p, 0 <= p ->
@@ -14,3 +19,19 @@ Theorem C18_split : forall p m, 0 <= p -> 0 < m ->
   sqrt (p / (p + 1)) * sqrt ((p + 1) / m) = sqrt (p / m) /\ sqrt (1 / (p + 1)) * sqrt ((p + 1) / m) = sqrt (1 / m).
 Proof. exact fn_split. Qed.
 Print Assumptions C18_split.
+
+Theorem C18_fn_state : forall (n : nat) (Nv : R) (ps : list (list bool * Z)), (2 <= n)%nat -> ps <> [] ->
+  pw (fun z z' => eqx n z z' = false) (map fst ps) ->
+  forall b, frun Nv (fn_gates n ps) ket0 b
+  = den (map (fun p => ((- RtoC (sqrt (1 / INR (length ps))) * cis (fphi Nv (snd p)))%C, E n (fst p) false false)) ps) b.
+Proof. exact fn_state. Qed.
+Print Assumptions C18_fn_state.
+
+Theorem C18_target_bits : forall (n : nat) (z : list bool) (q : nat), (2 <= n)%nat ->
+  get (E n z false false) q = if (q <? n)%nat then bit z (n - 1 - q) else false.
+Proof. exact E_bits. Qed.
+Print Assumptions C18_target_bits.
+
+Theorem ex_C18_hypotheses : pw (fun z z' => eqx 2 z z' = false) (map fst [([false; true], 1%Z); ([true; true], 0%Z); ([false; false], 3%Z)]).
+Proof. exact ex_pw. Qed.
+Print Assumptions ex_C18_hypotheses.
